@@ -18,7 +18,7 @@ for l in logs:
         else: alarms.setdefault(m.group(1),[]).append(m.group(2)[:160])
 rows=[]
 for patch in sorted(checks):
-    parts=patch.split('/'); vid=parts[-4]+'-'+parts[-2]
+    parts=patch.split('/'); vid=parts[-2] if parts[-3]=='benign' else parts[-4]+'-'+parts[-2]
     meta=json.load(open(f'/verif/seeded/benign/{vid}/meta.json'))
     st='not finished' if patch not in done else ('ALARM: '+'; '.join(alarms[patch]) if patch in alarms else 'all exit 0')
     rows.append((vid,meta.get('title','')[:150].replace('|','/'),' '.join(checks[patch]),st))
